@@ -7,7 +7,7 @@
     and therefore the trie structure (up to the hash caches) and the root hash computed from
     it depend on the key-value content alone — not on the order of operations. *)
 From Coq Require Import List NArith Arith Bool.
-From Kardia Require Import C07.Model C07.ProofsBase C07.ProofsMap C07.ProofsCanon.
+From Kardia Require Import C07.Model C07.ProofsBase C07.ProofsMap C07.ProofsCanon C07.Open.
 Import ListNotations.
 
 (** keybytesToHex is injective on byte strings and yields well-formed keys *)
